@@ -606,7 +606,14 @@ func runConcurrentWatched(t *testing.T, cs []c20Case, s *gen.Stream) (key, detai
 // watched runs one virtual-clock case under a real-time limit. A case takes milliseconds of real time whatever its
 // virtual durations; one that is still going after 40 s is spinning inside the bubble (virtual time only advances when
 // every goroutine of the bubble is blocked) - or the machine is hopelessly slow, which is reported as inconclusive.
+// spinning is set once a call has been found spinning: the goroutine cannot be stopped and keeps a processor busy, every
+// further case that meets the same defect would cost another 40 s - the finding is reported, the rest of the run is cut short.
+var spinning atomic.Bool
+
 func watched(run func()) (key, detail string) {
+	if spinning.Load() {
+		return "", ""
+	}
 	done := make(chan struct{})
 	go func() {
 		defer close(done)
@@ -621,6 +628,7 @@ func watched(run func()) (key, detail string) {
 	buf = buf[:runtime.Stack(buf, true)]
 	for _, g := range strings.Split(string(buf), "\n\n") {
 		if strings.Contains(g, "trust.(*RetryHTTPSGetter).Get") && (strings.Contains(g, "[running") || strings.Contains(g, "[runnable")) {
+			spinning.Store(true)
 			return "busy-loop", "the call keeps the processor without letting (virtual) time pass: still running after 40 s of real time, not blocked in a wait"
 		}
 	}
